@@ -35,8 +35,11 @@ type FragReader struct {
 	Budget   int  // if > 0: at most Budget reads are short (fragmented); -1 after it is used up
 	OneByte  bool // deliver exactly one byte per Read
 	EarlyErr bool
-	Failed   bool
-	Calls    int
+	// Transient: the failure happens once; later reads deliver the rest of
+	// the data (a timeout that the caller's retry gets past).
+	Transient bool
+	Failed    bool
+	Calls     int
 }
 
 func NewFragReader(data []byte) *FragReader { return &FragReader{Data: data, FailAt: -1} }
@@ -54,6 +57,9 @@ func (r *FragReader) Read(p []byte) (int, error) {
 	if limit <= 0 {
 		if r.FailAt >= 0 && r.Pos >= r.FailAt {
 			r.Failed = true
+			if r.Transient {
+				r.FailAt = -1
+			}
 			return 0, r.Err
 		}
 		return 0, io.EOF
@@ -78,6 +84,9 @@ func (r *FragReader) Read(p []byte) (int, error) {
 	r.Pos += n
 	if r.EarlyErr && r.FailAt >= 0 && r.Pos == r.FailAt {
 		r.Failed = true
+		if r.Transient {
+			r.FailAt = -1
+		}
 		return n, r.Err
 	}
 	return n, nil
